@@ -293,3 +293,7 @@ def run(ctx):
     n = 1200 if ctx.tier == "quick" else 25000
     stream.run_stream(ctx, "build", "harness.props.c16", "gen_cases", n, per_chunk=80,
                       canon_kw=dict(drop_zero=False))
+
+
+def replay(ctx, payload):
+    return stream.replay(ctx, payload, canon_kw=dict(drop_zero=False))
